@@ -4,9 +4,10 @@ def plan(tier):
         "mc": [{"module": "ExactMatchMC", "cfg": "ExactMatchMC.cfg" if q else "ExactMatchMC_thorough.cfg",
                 "timeout": 1500}],
         "families": [{"fam": "exact", "trace": "ExactMatchTrace"}],
-        "required_obligations": ["exhaustive_small", "len63", "len64", "len65_refused"],
+        "required_obligations": ["exhaustive_small", "self_overlap_all_borders", "len63", "len64", "len65_refused"],
         "rule": "one run = one matcher object (algo,pattern) applied to several texts; exhaustive over {a,b} "
-                "(|p|<=4,|t|<=7 quick; 5/9 thorough) for all five matchers, plus unary/periodic/random patterns "
+                "(|p|<=4,|t|<=7 quick; 5/9 thorough) for all five matchers, every binary pattern of length 5..9(11) "
+                "against all of its self-overlap texts p[..s]+p, plus unary/periodic/random patterns "
                 "of the word-size boundary lengths over 1-, 2-, 3- and 256-symbol alphabets with planted occurrences",
         "bounds": {"mc": "W=4, Sym={1,2}, |p|<=4, |t|<=6 (quick) / 8 (thorough), all five machines",
                    "impl": "|p|<=70, |t|<=300, bytes 0..255"},
